@@ -790,7 +790,7 @@ fn main() {
             continue;
         }
         let case: Value = serde_json::from_str(&line).expect("case json");
-        BELOW_MIN.store(case["below_min"].as_bool().unwrap_or(false), std::sync::atomic::Ordering::SeqCst);
+        BELOW_MIN.store(case["below_min"].as_bool().unwrap_or(true), std::sync::atomic::Ordering::SeqCst);
         if case["path"].as_str() == Some("index") {
             run_index(&tracer, &case);
         } else {
